@@ -34,6 +34,52 @@ def _escapes_quoted(call) -> bool:
     return q is None or (isinstance(q, ast.Constant) and bool(q.value))
 
 
+def atomic_push_obligations(ctx, rep, rule):
+    """The interpreter records that locals / a repeat frame were pushed only after the context method returned.  If such a
+    method fails half-way (an IndexError from the repeat variable is even expected and caught by the interpreter) the frames it
+    pushed stay: so, after its first push, it must not call into objects handed in by the caller."""
+    prog = ctx.prog
+    tales = prog.modules.get("simpletal.simpleTALES")
+    C = tales.classes.get("Context") if tales else None
+    if C is None:
+        rep.fail(rule, "simpleTALES.Context", detail="context class not found")
+        return
+    PUSH_ATTRS = ("repeatStack", "localStack")
+    n = 0
+    for m in C.methods.values():
+        stmts = list(m.node.body)
+        first = None
+        for i, st_ in enumerate(stmts):
+            for x in ast.walk(st_):
+                if isinstance(x, ast.Call) and isinstance(x.func, ast.Attribute) and (
+                        (x.func.attr == "append" and (dotted(x.func.value) or "").split(".")[-1] in PUSH_ATTRS) or
+                        (x.func.attr == "pushLocals" and dotted(x.func.value) == "self")):
+                    first = i if first is None else first
+        if first is None or m.name in ("pushLocals",):
+            continue
+        n += 1
+        params = set(m.params[1:])
+        risky = []
+        for st_ in stmts[first:]:
+            for x in ast.walk(st_):
+                if isinstance(x, ast.Call) and isinstance(x.func, ast.Attribute):
+                    root = x.func.value
+                    while isinstance(root, (ast.Attribute, ast.Subscript, ast.Call)):
+                        root = root.value if not isinstance(root, ast.Call) else root.func
+                    if isinstance(root, ast.Name) and root.id in params:
+                        # ... unless undone by a finally / except of the method
+                        from ..structure import enclosing_tries as _et
+
+                        if not any(tr.finalbody or tr.handlers for tr in _et(m.node, x)):
+                            risky.append(norm(x)[:40])
+        rep.add(rule, f"{m.qualname}: nothing can fail between its pushes and its return", not risky, ctx.where(m),
+                f"`{risky[0]}` is called on an object of the caller after a frame was pushed: when it raises (a repeat variable that is already "
+                "exhausted raises IndexError, which the interpreter catches) the pushed frames stay and every later pop is one level off" if risky else "",
+                key=f"{rule}|{m.qualname}")
+    if n == 0:
+        rep.fail(rule, "simpleTALES.Context", detail="no pushing method found")
+
+
 def check(ctx, rep):
     prog = ctx.prog
     eff = Effects(prog, ctx.resolver)
@@ -42,8 +88,11 @@ def check(ctx, rep):
     rep.rule("R18c", "pushLocals/addRepeat set a saved flag; popLocals/removeRepeat only under that flag", floor=4)
     rep.rule("R18d", "template text reaches the compiled program escaped: handle_data escapes; character/entity reference handlers "
              "are dormant (html.parser converts references first) or escape what they decode", floor=2)
+    rep.rule("R18e", "context pushes are all-or-nothing: after a method of the context has pushed a frame it calls nothing that can fail on the "
+             "caller's objects (the interpreter pops only what it knows was pushed)", floor=1)
     rep.assume("simpleTALUtils (macro expansion utility) is not used by template expansion and is out of scope")
     compile_text_obligations(ctx, rep, "R18d")
+    atomic_push_obligations(ctx, rep, "R18e")
     mod = prog.modules.get("simpletal.simpleTAL")
     tales = prog.modules.get("simpletal.simpleTALES")
     if mod is None or tales is None:
